@@ -410,7 +410,7 @@ func (st *State) load(addr string, t types.Type, root string) Val {
 		o := st.define("ld", "Int", "(select "+st.heap("Hi")+" (fld "+addr+" 1))")
 		l := st.define("ld", "Int", "(select "+st.heap("Hi")+" (fld "+addr+" 2))")
 		c := st.define("ld", "Int", "(select "+st.heap("Hi")+" (fld "+addr+" 3))")
-		st.assume(sAnd(sLe("0", l), sLe(l, c), sLe("0", o)))
+		st.assume(sAnd(sLe("0", l), sLe(l, c), sLe("0", o), sLe(c, "9223372036854775807")))
 		st.assume(sImp("(= "+b+" null)", sAnd(sEq(l, "0"), sEq(c, "0"))))
 		if root == "" {
 			st.envAddr(b)
@@ -599,7 +599,7 @@ func (st *State) freshVal(t types.Type, hint string) Val {
 		o := "0"
 		l := st.declare(hint+"_l", "Int")
 		c := st.declare(hint+"_c", "Int")
-		st.assume(sAnd(sLe("0", l), sLe(l, c), sLe("0", o)))
+		st.assume(sAnd(sLe("0", l), sLe(l, c), sLe("0", o), sLe(c, "9223372036854775807")))
 		st.assume(sImp("(= "+b+" null)", sAnd(sEq(l, "0"), sEq(c, "0"))))
 		st.envAddr(b)
 		return Val{K: KSlice, Base: b, Off: o, Len: l, Cap: c, Ty: t}
@@ -731,7 +731,8 @@ func (st *State) typeFact(term string, t types.Type) {
 func (st *State) sliceFacts(v Val) {
 	switch v.K {
 	case KSlice:
-		st.assume(sAnd(sLe("0", v.Len), sLe(v.Len, v.Cap), sLe("0", v.Off)))
+		// (lengths and capacities are ints: at most 2^63-1)
+		st.assume(sAnd(sLe("0", v.Len), sLe(v.Len, v.Cap), sLe("0", v.Off), sLe(v.Cap, "9223372036854775807")))
 		st.assume(sImp(sEq(v.Base, "null"), sAnd(sEq(v.Len, "0"), sEq(v.Cap, "0"))))
 	case KStruct, KTuple, KArr:
 		for _, f := range v.F {
